@@ -18,7 +18,7 @@ from . import sym as S
 from .sym import Sym, SymBool, Unsupported
 
 _real_np = _np
-pi = _np.pi
+pi = Sym(S.PI)      # exact pi: np.pi is modelled as the real number, not its float approximation
 inf = _np.inf
 nan = _np.nan
 e = _np.e
